@@ -12,6 +12,10 @@
 //     ids_valid, Schedule::{ids_ok, formations_ok, rs_ok, next_dummy_id}, lemma_tour_cost_le
 //     (Schedule::transitions_ok, usage_exact, … are in env/spawn_vehicle_shim.vs with the same text);
 //   * from env/update_tours_shim.vs: ids_lose, lemma_rank_injective, lemma_bsearch_finds, lemma_remove_listing.
+//   * from env/add_path_shim.vs: lemma_first_pos (as lemma_rd_first_pos).
+// The last three sections (CLOSURE) hold the induction step of C10 / C09: new vocabulary (rd_listing_exact, rd_effect, rd_closed,
+// dd_dummy_listing_exact, dd_closed, sd_closed) and proved lemmas; they use the closure / counting lemmas `spcl_*` of
+// env/spawn_vehicle_shim.vs.
 
 // =====================================================================================================
 // copied from env/remove_segment_shim.vs
@@ -640,14 +644,11 @@ pub proof fn lemma_un_old_same_net(s: &Schedule, m: &Schedule, tf0: Formations, 
     if k > 0 { lemma_un_old_same_net(s, m, tf0, moved, k - 1, c); }
 }
 
-/// the schedule without the dummy tour still satisfies the precondition of spawn_vehicle_for_path: none of its clauses
-/// looks at a dummy tour, except "dummy tours sit under Dummy ids" (a sub-map)
-pub proof fn lemma_spawn_pre_without_dummy(s: &Schedule, d: VehicleIdx, m: &Schedule, vt: VehicleTypeIdx, path: Seq<NodeIdx>)
-    requires
-        s.dummy_deleted(d, m),
-        s.spawn_pre(vt, path),
-    ensures
-        m.spawn_pre(vt, path),
+/// CLOSURE of sv_ok under delete_dummy: none of its clauses looks at a dummy tour, except "dummy tours sit under Dummy ids" (a
+/// sub-map)
+pub proof fn lemma_dd_sv_ok(s: &Schedule, d: VehicleIdx, m: &Schedule)
+    requires s.dummy_deleted(d, m), s.sv_ok(),
+    ensures m.sv_ok(),
 {
     assert(m.sv_ids_ok()) by {
         assert forall|x: VehicleIdx| #[trigger] m.dummy_tours@.contains_key(x) implies x is Dummy by {
@@ -676,6 +677,17 @@ pub proof fn lemma_spawn_pre_without_dummy(s: &Schedule, d: VehicleIdx, m: &Sche
             assert(s.next_period_transitions@[t].has_vehicle(v) <==> s.vehicles@.contains_key(v) && s.type_of(v) == t);
         }
     }
+}
+/// the schedule without the dummy tour still satisfies the precondition of spawn_vehicle_for_path: none of its clauses
+/// looks at a dummy tour, except "dummy tours sit under Dummy ids" (a sub-map)
+pub proof fn lemma_spawn_pre_without_dummy(s: &Schedule, d: VehicleIdx, m: &Schedule, vt: VehicleTypeIdx, path: Seq<NodeIdx>)
+    requires
+        s.dummy_deleted(d, m),
+        s.spawn_pre(vt, path),
+    ensures
+        m.spawn_pre(vt, path),
+{
+    lemma_dd_sv_ok(s, d, m);
     assert(m.spawn_counter_ok(path)) by {
         assert forall|t: Tour| depots_added(&m.network, path, t.nodes@) && tour_of_net(&m.network, &t) && t.caches_ok()
             implies -counter_bound() <= #[trigger] tour_counter(&t) <= counter_bound() by {
@@ -695,5 +707,646 @@ pub proof fn lemma_spawn_pre_without_dummy(s: &Schedule, d: VehicleIdx, m: &Sche
             let i = choose|i: int| 0 <= i < sdn.len() && s.sp_can_spawn(#[trigger] sdn[i], vt, du);
             assert(m.sp_can_spawn(sdn[i], vt, du));
         }
+    }
+}
+
+// =====================================================================================================
+// CLOSURE (C10 / C09 induction step): the result of each of the three operations satisfies the schedule-invariant bundle
+// of its own precondition again.  Everything below is NEW vocabulary (prefix `rd_` / `dd_` / `sd_`) and PROVED lemmas -- no
+// assumption.  lemma_rd_first_pos is text copied from env/add_path_shim.vs (lemma_first_pos, [text of slices/admission.vs]).
+// The counting lemma of the rotation cycles (spcl_lemma_len_sum_le_vehicles) and the closure of sv_ok under
+// spawn_vehicle_for_path (spcl_lemma_closure, spcl_closed, spcl_step) are those of env/spawn_vehicle_shim.vs (included before
+// this file).
+//
+// sched_ok (env/schedule_shim.vs) speaks about `sched_vehicles(s)`, the order in which Schedule::vehicles_iter_all yields the
+// vehicles: an UNINTERPRETED function of the whole schedule value (A-iter), so nothing is known about the listing of a NEW
+// schedule value -- not even for delete_dummy, which leaves every component the listing is computed from alone.  The two
+// conjuncts of sched_ok that say what the listing IS (duplicate-free, lists exactly the vehicles with a tour) are therefore
+// the PREMISE `rd_listing_exact(result)` of the closure of sched_ok / rs_ok; everything else in sched_ok (network, number of
+// vehicles, vehicle_ok for every vehicle, the cost sums) is proved from the effect clauses.
+// =====================================================================================================
+/// the two conjuncts of sched_ok that characterise the uninterpreted listing sched_vehicles: it is duplicate-free and lists
+/// exactly the vehicles that have a tour
+pub open spec fn rd_listing_exact(s: &Schedule) -> bool {
+    let vs = sched_vehicles(s);
+    &&& vs.no_duplicates()
+    &&& forall|v: VehicleIdx| #[trigger] vs.contains(v) <==> s.tours@.contains_key(v)
+}
+
+// ---- sums of cached tour costs over listings ---------------------------------------------------------------------------------
+/// the sum over the first k vehicles only depends on the first k entries of the listing
+pub proof fn lemma_rd_pre_costs_same_prefix(tours: TourMap, a: Seq<VehicleIdx>, b: Seq<VehicleIdx>, k: int)
+    requires 0 <= k <= a.len(), k <= b.len(), forall|j: int| 0 <= j < k ==> a[j] == b[j],
+    ensures pre_costs(tours, a, k) == pre_costs(tours, b, k),
+    decreases k,
+{
+    if k > 0 { lemma_rd_pre_costs_same_prefix(tours, a, b, k - 1); }
+}
+/// taking one vehicle out of the listing takes its tour's costs out of the sum
+pub proof fn lemma_rd_pre_costs_remove(tours: TourMap, b: Seq<VehicleIdx>, p: int, k: int)
+    requires 0 <= p < k <= b.len(),
+    ensures pre_costs(tours, b, k) == pre_costs(tours, b.remove(p), k - 1) + tours[b[p]].costs as int,
+    decreases k,
+{
+    let r = b.remove(p);
+    if k == p + 1 {
+        assert forall|j: int| 0 <= j < p implies b[j] == r[j] by {}
+        lemma_rd_pre_costs_same_prefix(tours, b, r, p);
+    } else {
+        lemma_rd_pre_costs_remove(tours, b, p, k - 1);
+        assert(r[k - 2] == b[k - 1]);
+    }
+}
+/// a duplicate-free listing whose vehicles all occur in another duplicate-free listing is at most as long and its tours cost
+/// at most as much
+pub proof fn lemma_rd_sub_listing(tours: TourMap, a: Seq<VehicleIdx>, b: Seq<VehicleIdx>)
+    requires a.no_duplicates(), b.no_duplicates(), forall|i: int| 0 <= i < a.len() ==> b.contains(#[trigger] a[i]),
+    ensures a.len() <= b.len(), tours_costs(tours, a) <= tours_costs(tours, b),
+    decreases a.len(),
+{
+    if a.len() == 0 {
+        lemma_pre_costs_mono(tours, b, 0, b.len() as int);
+    } else {
+        let n = a.len() as int;
+        let x = a[n - 1];
+        let d = a.drop_last();
+        assert(b.contains(a[n - 1]));
+        let p = choose|p: int| 0 <= p < b.len() && b[p] == x;
+        let r = b.remove(p);
+        lemma_remove_listing(b, p);
+        assert(d.no_duplicates()) by {
+            assert forall|i: int, j: int| 0 <= i < d.len() && 0 <= j < d.len() && i != j implies d[i] != d[j] by {
+                assert(d[i] == a[i] && d[j] == a[j]);
+            }
+        }
+        assert forall|i: int| 0 <= i < d.len() implies r.contains(#[trigger] d[i]) by {
+            assert(d[i] == a[i]);
+            assert(b.contains(a[i]));
+            assert(a[i] != a[n - 1]);
+        }
+        lemma_rd_sub_listing(tours, d, r);
+        lemma_rd_pre_costs_remove(tours, b, p, b.len() as int);
+        assert forall|j: int| 0 <= j < n - 1 implies a[j] == d[j] by {}
+        lemma_rd_pre_costs_same_prefix(tours, a, d, n - 1);
+    }
+}
+
+// ---- formations: a vehicle that stays keeps its place in every formation ---------------------------------------------------------
+/// [text of env/add_path_shim.vs / slices/admission.vs: lemma_first_pos]
+pub proof fn lemma_rd_first_pos(s: Seq<Vehicle>, v: VehicleIdx)
+    ensures
+        0 <= first_pos(s, v) <= s.len(),
+        forall|i: int| 0 <= i < first_pos(s, v) ==> (#[trigger] s[i]).idx != v,
+        first_pos(s, v) < s.len() ==> s[first_pos(s, v)].idx == v,
+        has_vehicle(s, v) <==> first_pos(s, v) < s.len(),
+    decreases s.len(),
+{
+    if s.len() == 0 {
+    } else if s[0].idx == v {
+    } else {
+        let t = s.drop_first();
+        lemma_rd_first_pos(t, v);
+        assert forall|i: int| 0 <= i < first_pos(s, v) implies (#[trigger] s[i]).idx != v by {
+            if i > 0 { assert(t[i - 1] == s[i]); }
+        }
+        if first_pos(s, v) < s.len() { assert(t[first_pos(t, v)] == s[first_pos(s, v)]); }
+        if has_vehicle(s, v) {
+            let i = choose|i: int| 0 <= i < s.len() && #[trigger] s[i].idx == v;
+            assert(t[i - 1].idx == v);
+        }
+    }
+}
+/// "removals keep the order": when v leaves a formation every other vehicle listed there stays listed
+pub proof fn lemma_rd_stays_listed(f: Seq<Vehicle>, v: VehicleIdx, u: VehicleIdx)
+    requires has_vehicle(f, v), has_vehicle(f, u), u != v,
+    ensures has_vehicle(f.remove(first_pos(f, v)), u),
+{
+    lemma_rd_first_pos(f, v);
+    let p = first_pos(f, v);
+    let i = choose|i: int| 0 <= i < f.len() && #[trigger] f[i].idx == u;
+    let g = f.remove(p);
+    if i < p { assert(g[i] == f[i]); assert(g[i].idx == u); } else { assert(g[i - 1] == f[i]); assert(g[i - 1].idx == u); }
+}
+
+// =====================================================================================================
+// closure of rs_ok under Schedule::replace_vehicle_by_dummy
+// =====================================================================================================
+/// C10 formations_ok again: every activity still has a formation (same key set), and the formation of every inner node of
+/// every remaining tour still lists the tour's vehicle (only v left, and only the formations of v's tour changed)
+pub proof fn lemma_rd_closure_formations(s: &Schedule, v: VehicleIdx, s1: &Schedule)
+    requires
+        s.formations_ok(), s.tours@.contains_key(v), tour_of_net(&s.network, &s.tours@[v]),
+        s1.network == s.network, s1.tours@ == s.tours@.remove(v),
+        s.rd_formations_follow(v, s1),
+    ensures s1.formations_ok(),
+{
+    let tf0 = s.train_formations@;
+    let tf1 = s1.train_formations@;
+    let t = s.tours@[v];
+    let nodes = t.nodes@;
+    assert forall|n: NodeIdx| s1.network.has(n) && s1.network.sp_node(n).sp_is_activity() implies #[trigger] tf1.contains_key(n) by {
+        assert(tf0.contains_key(n));
+        assert(tf0.dom().contains(n));
+        assert(tf1.dom().contains(n));
+    }
+    assert forall|u: VehicleIdx, i: int| s1.tours@.contains_key(u) && 0 < i < s1.tours@[u].nodes@.len() - 1
+        implies has_vehicle(s1.train_formations@[#[trigger] s1.tours@[u].nodes@[i]].formation@, u) by {
+        assert(u != v && s.tours@.contains_key(u) && s1.tours@[u] == s.tours@[u]);
+        let n = s.tours@[u].nodes@[i];
+        assert(has_vehicle(tf0[s.tours@[u].nodes@[i]].formation@, u));
+        if moved_nd(&s.network, nodes, n) {
+            let j = choose|j: int| 0 <= j < nodes.len() && nodes[j] == n;
+            lemma_tour_kinds(&t, j);
+            assert(0 < j < nodes.len() - 1);
+            assert(has_vehicle(tf0[s.tours@[v].nodes@[j]].formation@, v));
+            lemma_rd_stays_listed(tf0[n].formation@, v, u);
+            assert(tf1[n].formation@ == tf0[n].formation@.remove(first_pos(tf0[n].formation@, v)));
+        } else {
+            assert(tf1[n] == tf0[n]);
+        }
+    }
+}
+/// magnitude: real vehicles are stored under `Vehicle` ids, which are 16 bit: there are at most 2^16 of them
+pub proof fn lemma_rd_at_most_2_16(vehicles: VehicleMap)
+    requires forall|v: VehicleIdx| #[trigger] vehicles.contains_key(v) ==> v is Vehicle,
+    ensures vehicles.dom().len() <= 0x10000,
+{
+    lemma_vehicle_ids_below(0x10000);
+    assert forall|v: VehicleIdx| #[trigger] vehicles.dom().contains(v) implies vehicle_ids_below(0x10000).contains(v) by {
+        assert(vehicles.contains_key(v));
+    }
+    vstd::set_lib::lemma_len_subset(vehicles.dom(), vehicle_ids_below(0x10000));
+}
+/// C15 / C10 / C09 transitions_ok again: rd_transitions_follow (the postcondition of update_transitions_and_violation_fast) gives
+/// every clause of transitions_ok for the result but the magnitude clause, which follows from counting: the cycles hold exactly
+/// the vehicles, and vehicle ids are 16 bit (2^16 < 2^17)
+pub proof fn lemma_rd_closure_transitions(s: &Schedule, v: VehicleIdx, s1: &Schedule)
+    requires
+        s.transitions_ok(), s1.network == s.network,
+        s.rd_transitions_follow(v, s1),
+        forall|u: VehicleIdx| #[trigger] s1.vehicles@.contains_key(u) ==> u is Vehicle,
+    ensures s1.transitions_ok(),
+{
+    let trs1 = s1.next_period_transitions@;
+    assert(sched_types(s1) == sched_types(s));
+    assert forall|t: VehicleTypeIdx| #[trigger] trs1.contains_key(t) <==> sched_types(s1).contains(t) by {
+        assert(s.next_period_transitions@.contains_key(t) <==> sched_types(s).contains(t));
+    }
+    spcl_lemma_len_sum_le_vehicles(s1);
+    lemma_rd_at_most_2_16(s1.vehicles@);
+}
+/// vehicle_ok for a vehicle whose record and tour are untouched, w.r.t. rotation cycles that are consistent with the new tours
+pub proof fn lemma_rd_vehicle_ok_kept(s: &Schedule, s1: &Schedule, u: VehicleIdx)
+    requires
+        s.vehicle_ok(u), s.transitions_ok(), s1.transitions_ok(), s1.network == s.network,
+        s1.vehicles@.contains_key(u), s1.vehicles@[u] == s.vehicles@[u], s1.tours@[u] == s.tours@[u],
+    ensures s1.vehicle_ok(u),
+{
+    let ty = s.type_of(u);
+    assert(s1.type_of(u) == ty);
+    assert(sched_types(s1) == sched_types(s));
+    assert(s.next_period_transitions@.contains_key(ty));
+    assert(sched_types(s).contains(ty));
+    assert(s1.next_period_transitions@.contains_key(ty));
+    let tr = s1.next_period_transitions@[ty];
+    assert(tr.wf(&s1.network, s1.tours@));
+    assert(tr.has_vehicle(u) <==> s1.vehicles@.contains_key(u) && s1.type_of(u) == ty);
+}
+/// sched_ok again, GIVEN that the listing of the result lists exactly its vehicles (rd_listing_exact: sched_vehicles is
+/// uninterpreted): the network is the same, every remaining vehicle is vehicle_ok, the listing is shorter, and the cost
+/// figure -- reduced by exactly the costs of the tour that went -- still covers the sum of the remaining tours' costs
+pub proof fn lemma_rd_closure_sched(s: &Schedule, v: VehicleIdx, s1: &Schedule)
+    requires
+        s.sched_ok(), s.transitions_ok(), s.tours@.contains_key(v),
+        s1.network == s.network, s1.vehicles@ == s.vehicles@.remove(v), s1.tours@ == s.tours@.remove(v),
+        s1.costs == s.costs - s.tours@[v].costs,
+        s1.transitions_ok(), s1.ids_ok(),
+        rd_listing_exact(s1),
+    ensures s1.sched_ok(),
+{
+    hide(Schedule::vehicle_ok);
+    hide(Schedule::transitions_ok);
+    let vs0 = sched_vehicles(s);
+    let vs1 = sched_vehicles(s1);
+    let t0 = s.tours@;
+    let t1 = s1.tours@;
+    assert forall|u: VehicleIdx| #[trigger] s1.tours@.contains_key(u) implies s1.vehicle_ok(u) by {
+        assert(s.tours@.contains_key(u) && u != v);
+        assert(s.vehicle_ok(u));
+        assert(s1.vehicles@.contains_key(u));
+        lemma_rd_vehicle_ok_kept(s, s1, u);
+    }
+    // the old listing covers the new one plus the vehicle that went
+    let a = vs1.push(v);
+    let n1 = vs1.len() as int;
+    assert(!vs1.contains(v));
+    assert(a.no_duplicates()) by {
+        assert forall|i: int, j: int| 0 <= i < a.len() && 0 <= j < a.len() && i != j implies a[i] != a[j] by {
+            if i < n1 && j < n1 { assert(a[i] == vs1[i] && a[j] == vs1[j]); }
+            else if i < n1 { assert(vs1.contains(vs1[i])); }
+            else { assert(vs1.contains(vs1[j])); }
+        }
+    }
+    assert forall|i: int| 0 <= i < a.len() implies vs0.contains(#[trigger] a[i]) by {
+        if i < n1 { assert(vs1.contains(vs1[i])); assert(t1.contains_key(vs1[i])); assert(t0.contains_key(a[i])); }
+        else { assert(a[i] == v); }
+    }
+    lemma_rd_sub_listing(t0, a, vs0);
+    assert forall|j: int| 0 <= j < n1 implies a[j] == vs1[j] by {}
+    lemma_rd_pre_costs_same_prefix(t0, a, vs1, n1);
+    assert(tours_costs(t0, a) == pre_costs(t0, vs1, n1) + t0[v].costs as int) by {
+        assert(a[n1] == v);
+    }
+    assert forall|j: int| 0 <= j < n1 implies t1[#[trigger] vs1[j]] == t0[vs1[j]] by {
+        assert(vs1.contains(vs1[j]));
+        assert(t1.contains_key(vs1[j]));
+    }
+    lemma_pre_costs_frame(t1, t0, vs1, n1);
+    lemma_pre_costs_mono(t1, vs1, 0, n1);
+}
+/// C10 listings: every other vehicle that was listed (its type has a sorted id list holding it) still is
+pub proof fn lemma_rd_others_listed(s: &Schedule, v: VehicleIdx, s1: &Schedule)
+    requires s.vehicle_gone(v, s1), s.others_untouched(v, s1),
+    ensures forall|u: VehicleIdx| u != v && s.vehicles@.contains_key(u) && s.listed_ok(u) ==> #[trigger] s1.listed_ok(u),
+{
+    let ty = s.type_of(v);
+    let l0 = s.listing(ty);
+    assert forall|u: VehicleIdx| u != v && s.vehicles@.contains_key(u) && s.listed_ok(u) implies #[trigger] s1.listed_ok(u) by {
+        let tu = s.type_of(u);
+        assert(s1.type_of(u) == tu);
+        if tu == ty {
+            let p = choose|p: int| 0 <= p < l0.len() && l0[p] == v && s1.listing(ty) == #[trigger] l0.remove(p);
+            let i = choose|i: int| 0 <= i < l0.len() && l0[i] == u;
+            if i < p { assert(l0.remove(p)[i] == u); } else { assert(l0.remove(p)[i - 1] == u); }
+        } else {
+            assert(s1.vehicle_ids_grouped_and_sorted@[tu] == s.vehicle_ids_grouped_and_sorted@[tu]);
+        }
+    }
+}
+/// C10 "listings … match the stored tours": if every type's id list held exactly the vehicles of the type and the list of the
+/// type of v held v once, every list still holds exactly the vehicles of its type
+pub proof fn lemma_rd_listings_match(s: &Schedule, v: VehicleIdx, s1: &Schedule)
+    requires
+        s.vehicle_gone(v, s1), s.others_untouched(v, s1), s.vehicles@.contains_key(v), s.listed_ok(v),
+        s.listings_match(), s.listing(s.type_of(v)).no_duplicates(),
+    ensures s1.listings_match(),
+{
+    let ty = s.type_of(v);
+    let l0 = s.listing(ty);
+    let lists0 = s.vehicle_ids_grouped_and_sorted@;
+    let lists1 = s1.vehicle_ids_grouped_and_sorted@;
+    assert forall|t: VehicleTypeIdx, u: VehicleIdx| #![trigger lists1[t]@.contains(u)] lists1.contains_key(t)
+        implies (lists1[t]@.contains(u) <==> s1.vehicles@.contains_key(u) && vtype(s1.vehicles@[u]) == t) by {
+        if t == ty {
+            let p = choose|p: int| 0 <= p < l0.len() && l0[p] == v && s1.listing(ty) == #[trigger] l0.remove(p);
+            lemma_remove_listing(l0, p);
+            assert(lists1[ty]@ == l0.remove(p));
+            assert(l0.remove(p).contains(u) <==> (l0.contains(u) && u != l0[p]));
+            assert(l0.contains(v));
+            assert(lists0.contains_key(ty));
+            assert(lists0[ty]@.contains(u) <==> s.vehicles@.contains_key(u) && vtype(s.vehicles@[u]) == ty);
+        } else {
+            assert(lists0.contains_key(t) && lists1[t] == lists0[t]);
+            assert(lists0[t]@.contains(u) <==> s.vehicles@.contains_key(u) && vtype(s.vehicles@[u]) == t);
+            if u == v { assert(vtype(s.vehicles@[v]) == ty); }
+        }
+    }
+}
+/// putting a new id into a duplicate-free list keeps it duplicate-free
+pub proof fn lemma_rd_insert_no_dup(s: Seq<VehicleIdx>, p: int, x: VehicleIdx)
+    requires 0 <= p <= s.len(), s.no_duplicates(), !s.contains(x),
+    ensures s.insert(p, x).no_duplicates(),
+{
+    let t = s.insert(p, x);
+    assert forall|i: int, j: int| 0 <= i < t.len() && 0 <= j < t.len() && i != j implies t[i] != t[j] by {
+        let a = if i < p { i } else { i - 1 };
+        let b = if j < p { j } else { j - 1 };
+        if i == p { assert(t[i] == x && t[j] == s[b]); assert(s.contains(s[b])); }
+        else if j == p { assert(t[j] == x && t[i] == s[a]); assert(s.contains(s[a])); }
+        else { assert(t[i] == s[a] && t[j] == s[b]); }
+    }
+}
+/// C10 dummy listings: every dummy that was listed still is (and the new one is), every dummy tour that was a well-formed dummy
+/// tour of the network still is, a list that held exactly the ids of the dummy tours, once each, still does.  (NOT shown: that the
+/// NEW dummy tour is well-formed -- Tour::new_dummy's contract says nothing about connectedness: A-path / D9.)
+pub proof fn lemma_rd_dummies(s: &Schedule, v: VehicleIdx, s1: &Schedule)
+    requires
+        s.others_untouched(v, s1),
+        s.needs_dummy(v) ==> s.trips_in_new_dummy(v, s1),
+        !s.needs_dummy(v) ==> s.no_new_dummy(s1),
+    ensures
+        forall|d2: VehicleIdx| s.dummy_listed_ok(d2) ==> #[trigger] s1.dummy_listed_ok(d2),
+        s.needs_dummy(v) ==> s1.dummy_listed_ok(s.next_dummy_id()),
+        forall|d2: VehicleIdx| s.dummy_tours@.contains_key(d2) && s.dummy_tour_ok(d2) ==> s1.dummy_tours@.contains_key(d2) && #[trigger] s1.dummy_tour_ok(d2),
+        s.dd_dummy_listing_exact() ==> s1.dd_dummy_listing_exact(),
+{
+    let ids0 = s.dummy_ids_sorted@;
+    let ids1 = s1.dummy_ids_sorted@;
+    let id = s.next_dummy_id();
+    if s.needs_dummy(v) {
+        let p = choose|p: int| 0 <= p <= ids0.len() && ids1 == #[trigger] ids0.insert(p, id);
+        assert forall|x: VehicleIdx| #[trigger] ids1.contains(x) <==> (ids0.contains(x) || x == id) by {
+            lemma_insert_contains(ids0, p, id, x);
+        }
+        if s.dd_dummy_listing_exact() {
+            lemma_rd_insert_no_dup(ids0, p, id);
+            assert forall|x: VehicleIdx| #[trigger] ids1.contains(x) <==> s1.dummy_tours@.contains_key(x) by {
+                assert(ids0.contains(x) <==> s.dummy_tours@.contains_key(x));
+            }
+        }
+    }
+    assert forall|d2: VehicleIdx| s.dummy_tours@.contains_key(d2) && s.dummy_tour_ok(d2)
+        implies s1.dummy_tours@.contains_key(d2) && #[trigger] s1.dummy_tour_ok(d2) by {
+        assert(s1.dummy_tours@[d2] == s.dummy_tours@[d2]);
+    }
+}
+/// the effect clauses of the contract of replace_vehicle_by_dummy the closure proof builds on
+pub open spec fn rd_effect(s: &Schedule, v: VehicleIdx, s1: &Schedule) -> bool {
+    &&& s.rs_ok() && s.vehicles@.contains_key(v) && s.listed_ok(v)
+    &&& s.vehicle_gone(v, s1)
+    &&& (s.needs_dummy(v) ==> s.trips_in_new_dummy(v, s1))
+    &&& (!s.needs_dummy(v) ==> s.no_new_dummy(s1))
+    &&& s.others_untouched(v, s1)
+    &&& s.rd_formations_follow(v, s1)
+    &&& s.rd_transitions_follow(v, s1)
+    &&& s1.costs == s.costs - s.tours@[v].costs
+    &&& usage_exact(s1.depot_usage@, &s.network, s1.vehicles@, s1.tours@)
+    &&& s1.ids_ok()
+}
+/// CLOSURE, conjunct by conjunct: the result s1 of replace_vehicle_by_dummy(v) satisfies the clauses of rs_ok again (sched_ok
+/// and hence the bundle: given that the listing of the result lists exactly its vehicles), and the listing invariants
+pub open spec fn rd_closed(s: &Schedule, v: VehicleIdx, s1: &Schedule) -> bool {
+    &&& s1.ids_ok()
+    &&& s1.formations_ok()
+    &&& s1.transitions_ok()
+    &&& usage_exact(s1.depot_usage@, &s1.network, s1.vehicles@, s1.tours@)
+    &&& (rd_listing_exact(s1) ==> s1.sched_ok())
+    &&& (rd_listing_exact(s1) ==> s1.rs_ok())
+    &&& (forall|u: VehicleIdx| u != v && s.vehicles@.contains_key(u) && s.listed_ok(u) ==> #[trigger] s1.listed_ok(u))
+    &&& (s.listings_match() && s.listing(s.type_of(v)).no_duplicates() ==> s1.listings_match())
+    // the dummy listings
+    &&& (forall|d2: VehicleIdx| s.dummy_listed_ok(d2) ==> #[trigger] s1.dummy_listed_ok(d2))
+    &&& (s.needs_dummy(v) ==> s1.dummy_listed_ok(s.next_dummy_id()))
+    &&& (forall|d2: VehicleIdx| s.dummy_tours@.contains_key(d2) && s.dummy_tour_ok(d2) ==> s1.dummy_tours@.contains_key(d2) && #[trigger] s1.dummy_tour_ok(d2))
+    &&& (s.dd_dummy_listing_exact() ==> s1.dd_dummy_listing_exact())
+}
+pub proof fn lemma_rd_closure(s: &Schedule, v: VehicleIdx, s1: &Schedule)
+    requires rd_effect(s, v, s1),
+    ensures rd_closed(s, v, s1),
+{
+    lemma_rd_provider(s, v);
+    assert(s1.network == s.network);
+    assert(s1.vehicles@ == s.vehicles@.remove(v) && s1.tours@ == s.tours@.remove(v));
+    lemma_rd_closure_formations(s, v, s1);
+    assert forall|u: VehicleIdx| #[trigger] s1.vehicles@.contains_key(u) implies u is Vehicle by {}
+    lemma_rd_closure_transitions(s, v, s1);
+    if rd_listing_exact(s1) {
+        lemma_rd_closure_sched(s, v, s1);
+    }
+    lemma_rd_others_listed(s, v, s1);
+    if s.listings_match() && s.listing(s.type_of(v)).no_duplicates() {
+        lemma_rd_listings_match(s, v, s1);
+    }
+    lemma_rd_dummies(s, v, s1);
+}
+
+// =====================================================================================================
+// closure under Schedule::delete_dummy: the listing / id invariants it touches; every other invariant is inherited (every
+// other component is the same)
+// =====================================================================================================
+impl Schedule {
+    /// C10 "… dummy listings are sorted and match the stored tours", in full: the list of dummy ids is sorted, duplicate-free
+    /// and holds exactly the ids of the dummy tours (so dummy_listed_ok holds for every dummy)
+    pub open spec fn dd_dummy_listing_exact(&self) -> bool {
+        &&& sorted_cmp(self.dummy_ids_sorted@)
+        &&& self.dummy_ids_sorted@.no_duplicates()
+        &&& forall|d: VehicleIdx| #[trigger] self.dummy_ids_sorted@.contains(d) <==> self.dummy_tours@.contains_key(d)
+    }
+}
+/// C10 ids_ok again: a sub-map of the dummy tours, the list stays sorted
+pub proof fn lemma_dd_ids(s: &Schedule, d: VehicleIdx, m: &Schedule)
+    requires s.dummy_deleted(d, m), s.ids_ok(),
+    ensures m.ids_ok(),
+{
+    assert forall|x: VehicleIdx| #[trigger] m.dummy_tours@.contains_key(x) implies x is Dummy && (x->Dummy_0 as int) < m.vehicle_counter by {
+        assert(s.dummy_tours@.contains_key(x));
+    }
+}
+/// the other dummy tours: still listed, still well-formed dummy tours of the network; an exact listing stays exact
+pub proof fn lemma_dd_dummies(s: &Schedule, d: VehicleIdx, m: &Schedule)
+    requires s.dummy_deleted(d, m),
+    ensures
+        forall|d2: VehicleIdx| d2 != d && s.dummy_listed_ok(d2) ==> #[trigger] m.dummy_listed_ok(d2),
+        forall|d2: VehicleIdx| d2 != d && s.dummy_tours@.contains_key(d2) && s.dummy_tour_ok(d2) ==> m.dummy_tours@.contains_key(d2) && #[trigger] m.dummy_tour_ok(d2),
+        s.dd_dummy_listing_exact() ==> m.dd_dummy_listing_exact(),
+{
+    let ids0 = s.dummy_ids_sorted@;
+    let ids1 = m.dummy_ids_sorted@;
+    let p = choose|p: int| 0 <= p < ids0.len() && ids0[p] == d && ids1 == #[trigger] ids0.remove(p);
+    assert forall|d2: VehicleIdx| d2 != d && s.dummy_listed_ok(d2) implies #[trigger] m.dummy_listed_ok(d2) by {
+        let i = choose|i: int| 0 <= i < ids0.len() && ids0[i] == d2;
+        if i < p { assert(ids0.remove(p)[i] == d2); } else { assert(ids0.remove(p)[i - 1] == d2); }
+    }
+    if s.dd_dummy_listing_exact() {
+        lemma_remove_listing(ids0, p);
+        assert forall|x: VehicleIdx| #[trigger] ids1.contains(x) <==> m.dummy_tours@.contains_key(x) by {
+            assert(ids0.remove(p).contains(x) <==> (ids0.contains(x) && x != ids0[p]));
+            assert(ids0.contains(x) <==> s.dummy_tours@.contains_key(x));
+        }
+    }
+}
+/// vehicle_ok only looks at components delete_dummy leaves alone
+pub proof fn lemma_dd_vehicle_ok(s: &Schedule, m: &Schedule, u: VehicleIdx)
+    requires s.same_but_dummies(m), s.vehicle_ok(u),
+    ensures m.vehicle_ok(u),
+{
+    assert(m.type_of(u) == s.type_of(u));
+    assert(m.transition_of(u) == s.transition_of(u));
+}
+/// CLOSURE of rs_ok under delete_dummy, GIVEN that the listing of the result lists exactly its vehicles (rd_listing_exact:
+/// sched_vehicles is an uninterpreted function of the whole schedule value, so even here nothing else is known about it)
+pub proof fn lemma_dd_rs_ok(s: &Schedule, d: VehicleIdx, m: &Schedule)
+    requires s.dummy_deleted(d, m), s.rs_ok(), rd_listing_exact(m),
+    ensures m.rs_ok(),
+{
+    hide(Schedule::vehicle_ok);
+    lemma_dd_ids(s, d, m);
+    assert(m.network == s.network);
+    assert(m.sched_ok()) by {
+        let vs0 = sched_vehicles(s);
+        let vs1 = sched_vehicles(m);
+        assert forall|u: VehicleIdx| #[trigger] m.tours@.contains_key(u) implies m.vehicle_ok(u) by {
+            assert(s.tours@.contains_key(u));
+            lemma_dd_vehicle_ok(s, m, u);
+        }
+        assert forall|i: int| 0 <= i < vs1.len() implies vs0.contains(#[trigger] vs1[i]) by {
+            assert(vs1.contains(vs1[i]));
+            assert(s.tours@.contains_key(vs1[i]));
+        }
+        lemma_rd_sub_listing(s.tours@, vs1, vs0);
+    }
+    assert(m.formations_ok());
+    assert(m.transitions_ok()) by {
+        assert(sched_types(m) == sched_types(s));
+        assert forall|t: VehicleTypeIdx, v: VehicleIdx| #![trigger m.next_period_transitions@[t].has_vehicle(v)] m.next_period_transitions@.contains_key(t)
+            implies (m.next_period_transitions@[t].has_vehicle(v) <==> m.vehicles@.contains_key(v) && m.type_of(v) == t) by {
+            assert(s.next_period_transitions@[t].has_vehicle(v) <==> s.vehicles@.contains_key(v) && s.type_of(v) == t);
+        }
+    }
+}
+/// CLOSURE, conjunct by conjunct: the result m of delete_dummy(d)
+pub open spec fn dd_closed(s: &Schedule, d: VehicleIdx, m: &Schedule) -> bool {
+    // the listing / id invariants the operation touches
+    &&& sorted_cmp(m.dummy_ids_sorted@)
+    &&& (s.ids_ok() ==> m.ids_ok())
+    &&& (forall|d2: VehicleIdx| d2 != d && s.dummy_listed_ok(d2) ==> #[trigger] m.dummy_listed_ok(d2))
+    &&& (forall|d2: VehicleIdx| d2 != d && s.dummy_tours@.contains_key(d2) && s.dummy_tour_ok(d2) ==> m.dummy_tours@.contains_key(d2) && #[trigger] m.dummy_tour_ok(d2))
+    &&& (s.dd_dummy_listing_exact() ==> m.dd_dummy_listing_exact())
+    // inherited: every other component is the same
+    &&& (s.formations_ok() ==> m.formations_ok())
+    &&& (s.transitions_ok() ==> m.transitions_ok())
+    &&& (usage_exact(s.depot_usage@, &s.network, s.vehicles@, s.tours@) ==> usage_exact(m.depot_usage@, &m.network, m.vehicles@, m.tours@))
+    &&& (s.listings_match() ==> m.listings_match())
+    &&& (forall|v: VehicleIdx| s.listed_ok(v) ==> #[trigger] m.listed_ok(v))
+    &&& (forall|t: VehicleTypeIdx| s.type_known(t) ==> #[trigger] m.type_known(t))
+    // the bundles
+    &&& (s.sv_ok() ==> m.sv_ok())
+    &&& (s.rs_ok() && rd_listing_exact(m) ==> m.rs_ok())
+}
+pub proof fn lemma_dd_closure_one(s: &Schedule, d: VehicleIdx, m: &Schedule)
+    requires s.dummy_deleted(d, m),
+    ensures dd_closed(s, d, m),
+{
+    assert(m.network == s.network);
+    if s.ids_ok() { lemma_dd_ids(s, d, m); }
+    lemma_dd_dummies(s, d, m);
+    if s.transitions_ok() {
+        assert(sched_types(m) == sched_types(s));
+        assert forall|t: VehicleTypeIdx, v: VehicleIdx| #![trigger m.next_period_transitions@[t].has_vehicle(v)] m.next_period_transitions@.contains_key(t)
+            implies (m.next_period_transitions@[t].has_vehicle(v) <==> m.vehicles@.contains_key(v) && m.type_of(v) == t) by {
+            assert(s.next_period_transitions@[t].has_vehicle(v) <==> s.vehicles@.contains_key(v) && s.type_of(v) == t);
+        }
+    }
+    assert forall|v: VehicleIdx| s.listed_ok(v) implies #[trigger] m.listed_ok(v) by {
+        assert(m.type_of(v) == s.type_of(v));
+    }
+    assert forall|t: VehicleTypeIdx| s.type_known(t) implies #[trigger] m.type_known(t) by {
+        assert(sched_types(m) == sched_types(s));
+    }
+    if s.sv_ok() { lemma_dd_sv_ok(s, d, m); }
+    if s.rs_ok() && rd_listing_exact(m) { lemma_dd_rs_ok(s, d, m); }
+}
+/// CLOSURE from the contract: whatever schedule satisfies the Ok-postcondition of delete_dummy (dummy_deleted) satisfies
+/// dd_closed.  (Stated for all schedules, triggered on the invariant asked about: the result of the function has no name in
+/// its body -- it is built from clones made in the argument list of Schedule::new.)
+pub proof fn lemma_dd_closure(s: &Schedule, d: VehicleIdx)
+    ensures
+        forall|m: Schedule| #![trigger m.ids_ok()] #![trigger m.dd_dummy_listing_exact()] #![trigger m.formations_ok()] #![trigger m.transitions_ok()]
+            #![trigger m.listings_match()] #![trigger m.sv_ok()] #![trigger m.rs_ok()]
+            s.dummy_deleted(d, &m) ==> dd_closed(s, d, &m),
+        forall|m: Schedule, x: VehicleIdx| #![trigger m.dummy_listed_ok(x)] #![trigger m.dummy_tour_ok(x)] #![trigger m.listed_ok(x)]
+            s.dummy_deleted(d, &m) ==> dd_closed(s, d, &m),
+        forall|m: Schedule, t: VehicleTypeIdx| #![trigger m.type_known(t)] s.dummy_deleted(d, &m) ==> dd_closed(s, d, &m),
+{
+    assert forall|m: Schedule| s.dummy_deleted(d, &m) implies #[trigger] dd_closed(s, d, &m) by {
+        lemma_dd_closure_one(s, d, &m);
+    }
+}
+
+// =====================================================================================================
+// closure of sv_ok under Schedule::spawn_vehicle_to_replace_dummy_tour = delete_dummy ; spawn_vehicle_for_path: from the
+// contract alone (the intermediate schedule `mid` of the postcondition: dummy_deleted, spawn_post), via lemma_dd_sv_ok and the
+// closure lemma of spawn_vehicle_for_path (spcl_lemma_closure, env/spawn_vehicle_shim.vs)
+// =====================================================================================================
+/// CLOSURE, conjunct by conjunct: the result (s1, id) of spawn_vehicle_to_replace_dummy_tour(d, vt) on s.  The magnitude
+/// clauses of sv_ok are not invariants of a spawn (the formations of the new tour's activities grow by one vehicle, the cost
+/// figure by the new tour's costs): they are re-established under the hypotheses on the RESULT named in spcl_closed
+/// (spcl_grown_len_small / spcl_grown_sums_fit for the activities of the new tour, costs <= 2^61)
+pub open spec fn sd_closed(s: &Schedule, d: VehicleIdx, s1: &Schedule, id: VehicleIdx) -> bool {
+    let nodes = s1.tours@[id].nodes@;
+    // instance validity: the network is the same
+    &&& s1.network == s.network
+    &&& s1.network.wf() && depot_lists_ok(&s1.network)
+    &&& (s.network.start_depots_ok() ==> s1.network.start_depots_ok())
+    // ids / listings
+    &&& s1.sv_ids_ok()
+    // formations: coverage, instance clause, C09
+    &&& s1.spcl_forms_cover_activities() && s1.spcl_trips_typed() && s1.spcl_unserved_covers()
+    // formations: magnitudes, under the hypothesis on the grown formations
+    &&& (s1.spcl_grown_len_small(nodes) ==> s1.spcl_forms_len_small())
+    &&& (s1.spcl_grown_sums_fit(nodes) ==> s1.spcl_forms_sums_fit())
+    &&& (s1.spcl_grown_len_small(nodes) && s1.spcl_grown_sums_fit(nodes) ==> s1.sv_formations_ok())
+    // rotation cycles
+    &&& s1.transitions_ok()
+    // depot usage (w.r.t. the result's own network)
+    &&& usage_exact(s1.depot_usage@, &s1.network, s1.vehicles@, s1.tours@)
+    // the bundle; magnitudes as hypotheses on the result
+    &&& (s1.spcl_grown_len_small(nodes) && s1.spcl_grown_sums_fit(nodes) && s1.costs <= sched_cost_bound() ==> s1.sv_ok())
+    // preconditions outside sv_ok that do not depend on the arguments
+    &&& (forall|t: VehicleTypeIdx| s.type_known(t) ==> #[trigger] s1.type_known(t))
+    &&& (s.listings_match() ==> s1.listings_match())
+    &&& (forall|u: VehicleIdx| s.vehicles@.contains_key(u) && s.listed_ok(u) ==> #[trigger] s1.listed_ok(u))
+    &&& s1.listed_ok(id)
+    // the other dummy tours
+    &&& (forall|d2: VehicleIdx| d2 != d && s.dummy_listed_ok(d2) ==> #[trigger] s1.dummy_listed_ok(d2))
+    &&& (forall|d2: VehicleIdx| d2 != d && s.dummy_tours@.contains_key(d2) && s.dummy_tour_ok(d2) ==> s1.dummy_tours@.contains_key(d2) && #[trigger] s1.dummy_tour_ok(d2))
+    &&& (s.dd_dummy_listing_exact() ==> s1.dd_dummy_listing_exact())
+}
+pub proof fn lemma_sd_closure_one(s: &Schedule, d: VehicleIdx, m: &Schedule, vt: VehicleTypeIdx, s1: &Schedule, id: VehicleIdx)
+    requires
+        s.sv_ok(), s.dummy_deleted(d, m),
+        // the postcondition of m.spawn_vehicle_for_path(vt, nodes of the dummy tour) -> Ok((s1, id)), as far as it is used
+        m.vehicle_counter <= 0xffff,
+        m.spcl_step(vt, s.dummy_tours@[d].nodes@, s1, id),
+        m.listings_match() ==> s1.listings_match(),
+    ensures sd_closed(s, d, s1, id),
+{
+    let path = s.dummy_tours@[d].nodes@;
+    lemma_dd_sv_ok(s, d, m);
+    lemma_dd_closure_one(s, d, m);
+    spcl_lemma_closure(m, s1, vt, path, id);
+    assert(spcl_closed(m, s1, id));
+    assert(s1.network == s.network);
+    assert forall|t: VehicleTypeIdx| s.type_known(t) implies #[trigger] s1.type_known(t) by {
+        assert(m.type_known(t));
+    }
+    assert forall|d2: VehicleIdx| d2 != d && s.dummy_listed_ok(d2) implies #[trigger] s1.dummy_listed_ok(d2) by {
+        assert(m.dummy_listed_ok(d2));
+    }
+    assert forall|d2: VehicleIdx| d2 != d && s.dummy_tours@.contains_key(d2) && s.dummy_tour_ok(d2)
+        implies s1.dummy_tours@.contains_key(d2) && #[trigger] s1.dummy_tour_ok(d2) by {
+        assert(m.dummy_tours@.contains_key(d2) && m.dummy_tour_ok(d2));
+    }
+    // the vehicle listings: the list of the type gained the new id (and stays sorted), the other lists are untouched
+    let l0 = m.listing(vt);
+    let p = choose|p: int| 0 <= p <= l0.len() && s1.listing(vt) == #[trigger] l0.insert(p, id);
+    assert(s1.listed_ok(id)) by {
+        lemma_insert_contains(l0, p, id, id);
+    }
+    assert forall|u: VehicleIdx| s.vehicles@.contains_key(u) && s.listed_ok(u) implies #[trigger] s1.listed_ok(u) by {
+        assert(m.listed_ok(u));
+        assert(u != id && s1.type_of(u) == m.type_of(u));
+        if m.type_of(u) == vt {
+            lemma_insert_contains(l0, p, id, u);
+        } else {
+            assert(s1.vehicle_ids_grouped_and_sorted@[m.type_of(u)] == m.vehicle_ids_grouped_and_sorted@[m.type_of(u)]);
+        }
+    }
+}
+/// CLOSURE for the body: whatever spawn_vehicle_for_path(vt, nodes of the dummy tour) returns on the intermediate schedule m
+/// (its postcondition, as far as the closure lemmas use it: spcl_step, the counter, listings_match) satisfies sd_closed.
+/// (Stated for all results, triggered on the effect clause `spawned` of the callee's contract: the call is the tail expression
+/// of the body, so its result has no name there.)
+pub proof fn lemma_sd_closure(s: &Schedule, d: VehicleIdx, m: &Schedule, vt: VehicleTypeIdx)
+    requires s.sv_ok(), s.dummy_deleted(d, m),
+    ensures
+        forall|s1: Schedule, id: VehicleIdx| #![trigger m.spawned(vt, s.dummy_tours@[d].nodes@, &s1, id)]
+            m.vehicle_counter <= 0xffff && m.spcl_step(vt, s.dummy_tours@[d].nodes@, &s1, id) && (m.listings_match() ==> s1.listings_match())
+            ==> sd_closed(s, d, &s1, id),
+{
+    assert forall|s1: Schedule, id: VehicleIdx| #![trigger m.spawned(vt, s.dummy_tours@[d].nodes@, &s1, id)]
+        m.vehicle_counter <= 0xffff && m.spcl_step(vt, s.dummy_tours@[d].nodes@, &s1, id) && (m.listings_match() ==> s1.listings_match())
+        implies sd_closed(s, d, &s1, id) by {
+        lemma_sd_closure_one(s, d, m, vt, &s1, id);
     }
 }
